@@ -217,6 +217,14 @@ func Drive(c *Check, tier string, seed int64) int {
 		logb, _ := os.ReadFile(logPath)
 		logs := string(logb)
 		jobIdx, caseIdx := readJournal(filepath.Join(outdir, fmt.Sprintf("w%d.journal", fidx)))
+		// what the worker had already observed before it died still counts
+		for _, v := range LoadSidecar(filepath.Join(outdir, fmt.Sprintf("w%d.violations", fidx))) {
+			total.NViol++
+			total.Counters["violation:"+v.Kind]++
+			if len(total.Violations) < 12 {
+				total.Violations = append(total.Violations, v)
+			}
+		}
 		switch {
 		case results[w].timedOut:
 			inconclusive = append(inconclusive, fmt.Sprintf("worker %d hit the wall-clock watchdog at job %d case %d", w, jobIdx, caseIdx))
@@ -442,6 +450,10 @@ func Worker(c *Check, tier string, seed int64, widx, nw int, outdir string) int 
 	if err == nil {
 		acc.journal = j
 		defer j.Close()
+	}
+	if sc, err := os.Create(filepath.Join(outdir, fmt.Sprintf("w%d.violations", widx))); err == nil {
+		acc.sidecar = sc
+		defer sc.Close()
 	}
 	for i, job := range jobs {
 		iso := !c.SerialJobs && job.Param("isolated", 0) == 1
